@@ -124,18 +124,15 @@ Fixpoint enqueue (t : ttree) (q : list qelem) : ttree * list qelem :=
       else (TLeaf true lb pd idx, qinsert (pd, idx) q)
   | TNode st lb gl l r =>
       if is_complete st then (t, q) else if pruned q lb then (t, q)
-      else if gl then
-        let '(l', q1) := enqueue l q in
-        let st1 := arrive st (completed l l') (tstatus r) in
-        let '(r', q2) := enqueue r q1 in
-        let st2 := arrive st1 (completed r r') (tstatus l') in
-        (TNode st2 lb gl l' r', q2)
       else
-        let '(r', q1) := enqueue r q in
-        let st1 := arrive st (completed r r') (tstatus l) in
-        let '(l', q2) := enqueue l q1 in
-        let st2 := arrive st1 (completed l l') (tstatus r') in
-        (TNode st2 lb gl l' r', q2)
+        (* first descend into the closer sub-tree: a = first, b = second child *)
+        let a := if gl then l else r in
+        let b := if gl then r else l in
+        let '(a', q1) := enqueue a q in
+        let st1 := arrive st (completed a a') (tstatus b) in
+        let '(b', q2) := enqueue b q1 in
+        let st2 := arrive st1 (completed b b') (tstatus a') in
+        (TNode st2 lb gl (if gl then a' else b') (if gl then b' else a'), q2)
   end.
 
 (* TraceNode::squaredRadius; None = 1e100 *)
